@@ -32,7 +32,8 @@ RULE = ('(a) all strings of length <= 4 (quick) / <= 5 (thorough) over 25 charac
         '(e) every name a model instance, its class or Python itself already uses (dir(instance), instance __dict__ keys with and without the leading underscore, keywords, builtins) '
         'in 7 roles (right-hand side, left-hand side, parameter, error, lagged, both sides, fenced); (f) fenced and inline verbatim statements of every Python statement kind over the names of '
         "_evaluate()'s own arguments, each with and without trailing blanks; "
-        'non-trivial = input that is not rejected by the very first equation regex test, i.e. reaches term parsing, or is accepted; distinct by input text')
+        'non-trivial = input that is not rejected by the very first equation regex test, i.e. reaches term parsing, or is accepted; distinct by input text'
+        ' A parse result edited by the caller must not come back from the next parse of the same text.')
 ASSUMPTIONS = [
     'reference statement split: physical lines joined while parentheses or a code fence are open; blank and comment-only lines dropped',
     'an accepted equation whose generated code is a bare expression without any assignment or call is counted as a discarded statement; inputs with quote characters are not judged on this (text inside a Python string literal is not the parser\'s to translate)',
